@@ -179,6 +179,8 @@ def run(rep, tier):
     dimension_rule_obligations(rep)
     kernels.oracle_self_check(rep)
     kernels.run_generators(rep, ["trace_out_matrix"])
+    from vf.pyvc import tensors
+    tensors.run_tensor_contracts(rep, ["C10"])       # ProductState.resize_fock / Envelope.resize_fock: pad / cut of the Fock axes only
     kernels.run_scope(rep, ["photon_weave/state/fock.py", "photon_weave/operation/fock_operation.py",
                             "photon_weave/operation/helpers/fock_dimension_esitmation.py"])
     B.run_b(rep, morecells.resize_cells(tier, common.seed()), ["C10"], tier=tier)
